@@ -23,6 +23,10 @@ impl<'a> RequestUri<'a> {
     }
 
     pub fn authority(&self) -> Option<&str> {
+        if self.full.starts_with('/') {
+            // origin-form: no authority (a "://" can only be part of the path)
+            return None;
+        }
         if let Some(scheme_i) = self.full.find("://") {
             // absolute-form, e.g. https://example.com[:port][/path][?query]
             let start = scheme_i + 3;
@@ -32,12 +36,12 @@ impl<'a> RequestUri<'a> {
                     Some(i) => Some(&rest[..i]),
                     None => Some(rest),
                 }
-            } else {
+            } else if start <= self.path_i_start {
                 Some(&self.full[start..self.path_i_start])
+            } else {
+                // the "://" lies inside the path: no scheme, everything before the path
+                Some(&self.full[..self.path_i_start])
             }
-        } else if self.full.starts_with('/') {
-            // origin-form: no authority
-            None
         } else {
             // authority-form (CONNECT), e.g. example.com[:port]
             match self.full.find(['/', '?']) {
